@@ -136,7 +136,7 @@ def boundary_cases():
 def exhaustive_cases(tier):
     if tier != "thorough":
         return
-    alphabet = ["0g", "1g", "2g", "3g", "0n", "1n", "0d", "1d"]
+    alphabet = ["0g", "1g", "2g", "3g", "0n", "0d"]
     sets = [[]] + [[a] for a in alphabet] + [[a, b] for i, a in enumerate(alphabet) for b in alphabet[i:]]
     for T in "PSN":
         for F in "lce":
@@ -183,7 +183,7 @@ def mutate(rng, l):
 def cases(rng, tier):
     yield from boundary_cases()
     yield from exhaustive_cases(tier)
-    n = 500 if tier == "thorough" else 45
+    n = 300 if tier == "thorough" else 45
     base = []
     for i in range(n):
         l = burst_case(rng, tier) if i % 3 == 0 else random_case(rng, tier)
